@@ -7,6 +7,7 @@ import (
 	"math/big"
 	"runtime"
 	"sort"
+	"strconv"
 	"strings"
 	"time"
 
@@ -443,6 +444,67 @@ func runC03(c *Ctx) {
 		c.Count(fmt.Sprintf("%s:accepted", e.name))
 		c.hist[e.name+":accepted"] = nAcc
 		c.hist[e.name+":rejected"] = nRej
+	}
+	// long lists through the list-shaped decoders, one call each: what a decode allocates and what it keeps alive must stay
+	// proportional to the input (round 6: each element of a batch copying the rest of the buffer is quadratic and only
+	// shows beyond about a thousand elements)
+	{
+		t1 := w.resp["req1"]
+		t2 := w.resp["req2"]
+		var big1, bigMix []byte
+		for k := 0; k < c.Pick(2000, 6000); k++ {
+			big1 = append(big1, t1...)
+			if k%8 == 0 {
+				bigMix = append(bigMix, t2...)
+			} else {
+				bigMix = append(bigMix, t1...)
+			}
+		}
+		frame := func(b []byte) []byte { return append(quicwire.AppendVarint(nil, uint64(len(b))), b...) }
+		var origins []byte
+		for k := 0; k < 4000; k++ {
+			origins = append(origins, []byte("o"+strconv.Itoa(k)+".ex,")...)
+		}
+		origins = origins[:len(origins)-1]
+		chal := (&tokens.TokenChallenge{TokenType: 2, IssuerName: "issuer.example", RedemptionNonce: make([]byte, 32), OriginInfo: strings.Split(string(origins), ",")}).Marshal()
+		honest5 := w.resp["req5"]
+		_, off5 := quicwire.ConsumeVarint(honest5[3:])
+		var els []byte
+		for k := 0; k < 4000; k++ {
+			els = append(els, honest5[3+off5:3+off5+32]...)
+		}
+		req5 := append(append(append([]byte{}, honest5[:3]...), quicwire.AppendVarint(nil, uint64(len(els)))...), els...)
+		for _, p := range []struct {
+			name string
+			in   []byte
+			call func(b []byte) any
+		}{
+			{"batched.Request.Unmarshal(2000×type1)", frame(big1), func(b []byte) any { q := &batched.BatchedTokenRequest{}; q.Unmarshal(b); return q }},
+			{"batched.Request.Unmarshal(mixed)", frame(bigMix), func(b []byte) any { q := &batched.BatchedTokenRequest{}; q.Unmarshal(b); return q }},
+			{"tokens.UnmarshalTokenChallenge(4000 origins)", chal, func(b []byte) any { q, _ := tokens.UnmarshalTokenChallenge(b); return q }},
+			{"type5.Request.Unmarshal(4000 elements)", req5, func(b []byte) any { q := &type5.BatchedPrivateTokenRequest{}; q.Unmarshal(b); return q }},
+		} {
+			in := p.in
+			runtime.GC()
+			runtime.ReadMemStats(&ms)
+			a0, h0 := ms.TotalAlloc, ms.HeapAlloc
+			var keep any
+			out := c.Op("c03.probe "+strings.ReplaceAll(p.name, " ", "_")+" len="+strconv.Itoa(len(in)), func() string { keep = p.call(in); return "-" })
+			runtime.ReadMemStats(&ms)
+			alloc := ms.TotalAlloc - a0
+			runtime.GC()
+			runtime.ReadMemStats(&ms)
+			var held uint64
+			if ms.HeapAlloc > h0 {
+				held = ms.HeapAlloc - h0
+			}
+			runtime.KeepAlive(keep)
+			inp := map[string]any{"entry": p.name, "input_len": len(in), "allocated": alloc, "retained": held}
+			c.Count("large-list-decode")
+			c.Direct(out == "-", "panic on a long list", inp)
+			c.Direct(alloc <= 1<<20+64*uint64(len(in)), fmt.Sprintf("decoding %d bytes allocated %d bytes", len(in), alloc), inp)
+			c.Direct(held <= 1<<20+32*uint64(len(in)), fmt.Sprintf("decoding %d bytes keeps %d bytes alive", len(in), held), inp)
+		}
 	}
 	// crafted type-3 requests (well sealed and signed) around unusual inner plaintexts
 	{
